@@ -24,6 +24,8 @@ pub fn layout_rules(family: u8) -> (&'static str, &'static str) {
         4 => ("Layout: LayoutItem+ | EMPTY;\nLayoutItem: WS | CommentLine;\n", "WS: /\\s+/;\nCommentLine: /\\/\\/.*/;\n"),
         5 => ("Layout: WS Layout | EMPTY;\n", "WS: /\\s+/;\n"),
         6 => ("Layout: Layout LayoutItem | EMPTY;\nLayoutItem: WS | CommentLine;\n", "WS: /\\s+/;\nCommentLine: /\\/\\/.*/;\n"),
+        // one item per layout parse: the parser has to chain several layout parses in front of one token
+        7 => ("Layout: WS | CommentLine;\n", "WS: /\\s+/;\nCommentLine: /\\/\\/.*/;\n"),
         _ => ("", ""),
     }
 }
@@ -31,13 +33,13 @@ pub fn layout_rules(family: u8) -> (&'static str, &'static str) {
 /// family of generated layout strings / of the recogniser for a Layout-rule family
 pub fn lang_of(family: u8) -> u8 {
     match family {
-        4 | 6 => 2,
+        4 | 6 | 7 => 2,
         5 => 1,
         f => f,
     }
 }
 
-pub const N_FAMILIES: u8 = 7;
+pub const N_FAMILIES: u8 = 8;
 
 pub fn grammar_text(g: &AG, family: u8) -> String {
     let mut t = g.text();
@@ -251,6 +253,101 @@ pub fn judge(p: &Side, g: &AG, w: &[usize], input: &str, plain_shape: &Option<St
     }
 }
 
+/// Round trip only (no reference tokenisation): terminals with overlapping recognisers, context-dependent lexing,
+/// conflicts settled by prefer-shift - whatever tree the LR parser builds, layout + token texts must rebuild the input
+/// and every stored layout must be whitespace.
+pub fn judge_roundtrip(text: &str, agj: &Value, dy: &Dyn, input: &str, rep: &mut Rep) {
+    let case = |extra: Value| json!({"grammar": text, "ag": agj, "lexical": true, "input": input, "extra": extra});
+    let sig = |k: &str| format!("lex-{}:{}:{}", k, fnv(text), fnv(input));
+    crate::rep::watchdog::touch();
+    rep.count("evaluations", 1);
+    rep.count("lexical_family_inputs", 1);
+    dynp::set_step_limit(20_000 * (input.len() as u64 + 1));
+    let r = guarded(|| {
+        dy.lr_parse(input).map(|t| {
+            let mut leaves = vec![];
+            let mut shape = String::new();
+            let mut errs = vec![];
+            walk(&t, &mut leaves, &mut shape, &mut errs);
+            leaves.iter().map(|(l, v, s, e)| (l.map(|x| x.to_string()), v.to_string(), *s, *e)).collect::<Vec<(Option<String>, String, usize, usize)>>()
+        })
+    });
+    let leaves = match r {
+        Err(None) => {
+            rep.count("step_budget_exceeded_not_judged", 1);
+            return;
+        }
+        Err(Some(m)) => {
+            rep.violation("C14", &sig("panic"), &format!("parser panicked: {}", m), case(json!(null)));
+            return;
+        }
+        Ok(Err(_)) => return,
+        Ok(Ok(l)) => l,
+    };
+    rep.count("trees", 1);
+    let mut errs: Vec<String> = vec![];
+    let mut rebuilt = String::new();
+    for (l, v, s, _e) in &leaves {
+        if let Some(l) = l {
+            rebuilt.push_str(l);
+            if l.is_empty() || !l.chars().all(|c| c.is_whitespace()) {
+                errs.push(format!("stored layout {:?} is not (non-empty) whitespace", l));
+            }
+        }
+        if rebuilt.len() != *s {
+            errs.push(format!("layout + texts before token {:?} have {} bytes but the token starts at {}", v, rebuilt.len(), s));
+            break;
+        }
+        rebuilt.push_str(v);
+    }
+    if errs.is_empty() {
+        if !input.starts_with(&rebuilt) {
+            errs.push(format!("concatenation {:?} is not a prefix of the input", rebuilt));
+        } else if !input[rebuilt.len()..].chars().all(|c| c.is_whitespace()) {
+            errs.push(format!("what follows the last token, {:?}, is not layout", &input[rebuilt.len()..]));
+        }
+    }
+    if !errs.is_empty() {
+        rep.violation("C14", &sig("lossless"), &format!("generic tree does not reproduce the input: {}", errs.join("; ")), case(json!({"leaves": leaves.iter().map(|l| json!([l.0, l.1, l.2])).collect::<Vec<_>>()})));
+    } else if leaves.iter().filter(|l| l.0.is_some()).count() >= 2 {
+        rep.distinct("nontrivial", fnv(&format!("{}|{}", text, input)));
+        rep.distinct("lexical_family_trees_with_layout", fnv(&format!("{}|{}", text, input)));
+    }
+}
+
+pub fn run_lexical(g0: &AG, wd: &Workdir, rep: &mut Rep, rng: &mut Rng, only: Option<&str>) {
+    let g = match only {
+        Some(_) => g0.clone(),
+        None => {
+            let mut g = g0.clone();
+            crate::c_diff::lexify(&mut g, rng);
+            g
+        }
+    };
+    let text = g.text();
+    let agj = g.to_json();
+    crate::rep::watchdog::set(|| json!({"grammar": text, "lexical": true}).to_string());
+    let spec = SetSpec { ps: Some(true), pse: Some(true), ..SetSpec::lr(rng.below(2) as u8) };
+    let c = wd.compile(&text, &spec);
+    let (Outcome::Ok, Some(d)) = (&c.outcome, c.dump) else {
+        rep.count("lexical_family_not_compiled", 1);
+        return;
+    };
+    let Ok(dy) = Dyn::new(&d, spec.dyn_cfg()) else { return };
+    rep.count("lexical_family_grammars", 1);
+    match only {
+        Some(i) => judge_roundtrip(&text, &agj, &dy, i, rep),
+        None => {
+            for input in crate::c06::all_inputs(&['a', 'b', 'c', '1', ' '], 5) {
+                judge_roundtrip(&text, &agj, &dy, &input, rep);
+                if input.contains(' ') && rng.chance(0.2) {
+                    judge_roundtrip(&text, &agj, &dy, &input.replace(' ', *rng.pick(&["  ", "\n", " \t", "\u{a0}"])), rep);
+                }
+            }
+        }
+    }
+}
+
 pub fn run_grammar(g: &AG, wd: &Workdir, rep: &mut Rep, rng: &mut Rng, maxlen: usize) {
     // scope: conflict-free (LALR_PAGER default) without disambiguation
     let raw = wd.compile(&g.text(), &SetSpec::raw(1));
@@ -319,6 +416,11 @@ pub fn main(a: &Args) {
         let v: Value = serde_json::from_str(&std::fs::read_to_string(path).expect("read replay")).expect("json");
         let case = &v["case"];
         let g = AG::from_json(&case["ag"]);
+        if case["lexical"].as_bool() == Some(true) {
+            run_lexical(&g, &wd, &mut rep, &mut rng, case["input"].as_str());
+            rep.finish();
+            return;
+        }
         let family = case["family"].as_u64().unwrap() as u8;
         let text = grammar_text(&g, family);
         let c = wd.compile(&text, &SetSpec::lr(1));
@@ -340,7 +442,19 @@ pub fn main(a: &Args) {
     let mut i = 0;
     while i < n && rep.elapsed() < a.max_s {
         i += 1;
-        let g = gen_bnf(&mut rng, &BnfOpts::default());
+        if i % 4 == 1 {
+            // overlapping recognisers on grammars whose LALR look-aheads are merged across contexts
+            let g = match i % 12 {
+                1 => gen_ctx(&mut rng),
+                5 => gen_lists(&mut rng),
+                _ => gen_bnf(&mut rng, &BnfOpts { max_nt: 5, max_t: 4, max_alts: 3, max_len: 4, p_empty: 0.15 }),
+            };
+            if g.reduced() && g.terms.len() <= 12 {
+                run_lexical(&g, &wd, &mut rep, &mut rng, None);
+            }
+            continue;
+        }
+        let g = if i % 9 == 0 { gen_lists(&mut rng) } else { gen_bnf(&mut rng, &BnfOpts::default()) };
         if !g.reduced() {
             continue;
         }
